@@ -217,3 +217,48 @@ func init() {
 	vfHarnesses["C13_textcmd2x"] = vfH_C13_textcmd2x
 	vfHarnesses["C13_textlock"] = vfH_C13_textlock
 }
+
+// C13_textseq: a program of 3 (C13_textseq4: 4) well-formed commands on ONE text
+// connection, each out of 14 forms that between them produce replies with and without
+// a value, hits and misses, through every reply path (result object recycling,
+// lockWaiter, direct read path). A second connection must still be served afterwards.
+var vfTextSeqForms = [][]string{
+	{"SET", "k", "v"},
+	{"GET", "k"},
+	{"GET", "nokey"},
+	{"LOCK", "a"},
+	{"LOCK", "a", "SET", "x"},
+	{"UNLOCK", "a"},
+	{"LOCK", "b", "TIMEOUT", "0"},
+	{"UNLOCK", "b"},
+	{"DEL", "k"},
+	{"INCR", "n"},
+	{"APPEND", "k", "w"},
+	{"EXISTS", "k"},
+	{"PUSH", "q", "PUSH", "e"},
+	{"TTL", "k"},
+}
+
+func vfH_C13_textseq()  { vfTextSeq(3) }
+func vfH_C13_textseq4() { vfTextSeq(4) }
+
+func vfTextSeq(n int) {
+	env := vfNewEnv(0)
+	tp, conn := vfNewText(env)
+	for i := 0; i < n; i++ {
+		w0 := conn.writes
+		form := vfTextSeqForms[vfChoice("c"+string(rune('0'+i)), len(vfTextSeqForms))]
+		args := append([]string(nil), form...)
+		_ = vfTextRun(tp, args)
+		vfAssert(conn.writes > w0, "a finished text command earned no reply")
+	}
+	tp2, conn2 := vfNewText(env)
+	_ = vfTextRun(tp2, []string{"GET", "k"})
+	vfAssert(conn2.writes >= 1, "a second connection is no longer served")
+	vfReach("end")
+}
+
+func init() {
+	vfHarnesses["C13_textseq"] = vfH_C13_textseq
+	vfHarnesses["C13_textseq4"] = vfH_C13_textseq4
+}
